@@ -89,7 +89,7 @@ def print_part(chk, vh, quick):
         evs = tokenize(data)
         def kind(t, c):
             return 13 if t % 4 == 0 and c % 2 == 0 else (c + t) % 17
-        expect = sum(4 if kind(t, c) in (0, 1, 2, 4) else 2 if kind(t, c) == 10 else (2 if env else 1) if kind(t, c) == 11 else 3
+        expect = sum(4 if kind(t, c) in (0, 1, 2, 4) else 5 if kind(t, c) == 10 else (5 if env else 4) if kind(t, c) == 11 else 3
                      for t in range(1, threads + 1) for c in range(1, calls + 1))
         mode = "pass-through" if env else "strip"
         if env and b"\x1b[" not in data:
